@@ -85,7 +85,7 @@ func (e *OpEngine) compareGradD2(rule, key, what, pos, label string, leaf interp
 	if eqs := e.M.SymEqualities(); len(eqs) > 0 {
 		got, w = got.SubstSym(eqs), w.SubstSym(eqs)
 	}
-	if got.Key() != w.Key() {
+	if !e.sameExpr(got, w, dims) {
 		verdict, wit := e.numericCompare(got, w, dims)
 		if verdict == 1 {
 			sig := valueSignature(got, w)
@@ -665,6 +665,18 @@ var _ = types.Typ
 // epsilon 1e-12: otherwise a prediction of exactly 0 (or an input a hair away from 0) is "equal" to a clip
 // bound / to zero and the tie rule of ElMax/ElMin hands it half of the derivative.
 func (e *OpEngine) RunToleranceCheck(key string) {
+	e.runToleranceCheck(key, "C13.tolerance", lossEps, "the clipping epsilon 1e-12: a value exactly at 0 compares equal to the clip bound (and inputs within the tolerance of 0 compare equal to 0), so the tie rule of ElMax/ElMin gives them half of the derivative instead of a clean 0 or 1")
+}
+
+// RunUnitToleranceCheck requires the tolerance to stay below the spacing of float64 at unit magnitude
+// (2^-52): a larger tolerance makes DISTINCT representable operands of ordinary size "equal", so the
+// selection rules of ElMax/ElMin/MaxAlong/MinAlong treat a differentiable point as a tie and the comparison
+// kernels report equality for different values.
+func (e *OpEngine) RunUnitToleranceCheck(key string) {
+	e.runToleranceCheck(key, "S10.tolerance", 2.220446049250313e-16, "the spacing of float64 at 1 (2^-52): distinct operands of ordinary magnitude (1 and 1+5e-13) compare equal, so ElMax/ElMin/MaxAlong/MinAlong split or duplicate the gradient at points where they are differentiable, and Eq/Ge/Le report equality of different values")
+}
+
+func (e *OpEngine) runToleranceCheck(key, rule string, bound float64, why string) {
 	fn := e.method("Eq")
 	if fn == nil {
 		e.undecided("anchor", key, "missing", "", "Eq not found")
@@ -696,13 +708,13 @@ func (e *OpEngine) RunToleranceCheck(key string) {
 			walk(c.Tau)
 		}
 	})
-	e.did("C13.tolerance", key)
+	e.did(rule, key)
 	if tol < 0 {
-		e.undecided("C13.tolerance", key, "extract", e.P.FuncPos(fn), "could not extract the equality tolerance from the Eq kernel")
+		e.undecided(rule, key, "extract", e.P.FuncPos(fn), "could not extract the equality tolerance from the Eq kernel")
 		return
 	}
-	if !(tol < lossEps) {
-		e.find("C13.tolerance", key, "tolerance-not-below-epsilon", e.P.FuncPos(fn),
-			fmt.Sprintf("the absolute equality tolerance is %g, not below the clipping epsilon 1e-12: a value exactly at 0 compares equal to the clip bound (and inputs within %g of 0 compare equal to 0), so the tie rule of ElMax/ElMin gives them half of the derivative instead of a clean 0 or 1", tol, tol))
+	if !(tol < bound) {
+		e.find(rule, key, "tolerance-not-below-epsilon", e.P.FuncPos(fn),
+			fmt.Sprintf("the absolute equality tolerance is %g, not below %s", tol, why))
 	}
 }
